@@ -59,6 +59,7 @@ the model (`Model/Observers.lean`), the fact that a `String` comes back is not.
 import SimpleDnsModel.Props.C14Fits
 import SimpleDnsModel.Props.C15Reports
 import SimpleDnsModel.Props.TieEnv
+import SimpleDnsModel.Props.TieEnvMdns
 namespace Dns.Mdns
 
 /-! ### 0. the text of a name -/
